@@ -1263,7 +1263,7 @@ func (d *indexData) newMatchTree(q query.Q, opt matchTreeOpt) (matchTree, error)
 	case *query.RepoSet:
 		reposWant := make([]bool, len(d.repoMetaData))
 		for repoIdx, r := range d.repoMetaData {
-			if _, ok := s.Set[r.Name]; ok {
+			if s.Set[r.Name] {
 				reposWant[repoIdx] = true
 			}
 		}
